@@ -41,9 +41,9 @@ func ruleC11_1(c *Ctx) {
 	multibulk, _ := p.ConstInt(pkgCodec, "RspMultibulk")
 	integer, _ := p.ConstInt(pkgCodec, "RspInteger")
 	check := func(site Site, want int64, wantName, what string) {
-		encl := outermost(site.Fn)
+		encl := homeFn(site.Fn)
 		c.touch(encl)
-		gs := guardsAt(site.Instr.Block())
+		gs := guardsOf(site.Instr)
 		var guardIf *ssa.If
 		ok := guardHas(gs, func(g Guard) bool {
 			x, op, y, okc := cmpGuard(g)
@@ -117,7 +117,7 @@ func ruleC11_1(c *Ctx) {
 				onRsp = true
 			}
 		}
-		if onRsp && outermost(s.Fn) != parseMGet {
+		if onRsp && homeFn(s.Fn) != parseMGet {
 			n++
 			check(s, integer, "RspInteger", "an integer (parseLen of RspBody)")
 		}
@@ -411,7 +411,7 @@ func ruleC11_4(c *Ctx) {
 		if !ok || (ld.X != ssa.Value(moved) && ld.X != ssa.Value(cont)) {
 			return
 		}
-		gs := guardsAt(r.Block())
+		gs := guardsOf(r)
 		okD := guardHas(gs, func(g Guard) bool {
 			x, op, y, ok := cmpGuard(g)
 			if !ok || op != token.EQL || !isNilConst(y) {
@@ -489,7 +489,7 @@ func (c *Ctx) definitelyNonNil(v ssa.Value, r *ssa.Return, depth int) (bool, str
 		}
 	}
 	// guarded by v != nil on the way to r
-	if guardHas(guardsAt(r.Block()), func(g Guard) bool {
+	if guardHas(guardsOf(r), func(g Guard) bool {
 		x, op, y, ok := cmpGuard(g)
 		return ok && op == token.NEQ && ((strip(x) == v0 && isNilConst(y)) || (strip(y) == v0 && isNilConst(x)))
 	}) {
@@ -559,7 +559,7 @@ func ruleC12_1(c *Ctx) {
 			if !okV {
 				if ex, ok := rs[0].(*ssa.Extract); ok && ex.Index == 0 {
 					if call, ok := ex.Tuple.(*ssa.Call); ok && call.Call.StaticCallee() != nil && contract[call.Call.StaticCallee()] {
-						if guardHas(guardsAt(r.Block()), func(g Guard) bool {
+						if guardHas(guardsOf(r), func(g Guard) bool {
 							x, op, y, ok := cmpGuard(g)
 							e2, isEx := x.(*ssa.Extract)
 							return ok && op == token.EQL && isNilConst(y) && isEx && e2.Tuple == ex.Tuple && e2.Index == 1
@@ -577,7 +577,7 @@ func ruleC12_1(c *Ctx) {
 				c.ok(name, c.at(r), why)
 				return
 			}
-			c.bad(name, c.at(r), "this return can yield (nil, nil): result - "+whyV+"; error - "+whyE+". The caller treats a nil error as a decoded request/fragment and dereferences it (the event loop has no recover: the proxy exits), or a value that is not a request is forwarded", withGuards(guardsAt(r.Block())))
+			c.bad(name, c.at(r), "this return can yield (nil, nil): result - "+whyV+"; error - "+whyE+". The caller treats a nil error as a decoded request/fragment and dereferences it (the event loop has no recover: the proxy exits), or a value that is not a request is forwarded", withGuards(guardsOf(r)))
 		})
 	}
 	_ = p
@@ -639,7 +639,7 @@ func ruleC12_5(c *Ctx) {
 		if !ok || !call.Call.IsInvoke() || call.Call.Method.Name() != "OnCReact" {
 			return
 		}
-		gs := guardsAt(call.Block())
+		gs := guardsOf(call)
 		okG := guardHas(gs, func(g Guard) bool {
 			x, op, y, ok := cmpGuard(g)
 			if !ok || op != token.EQL || !isNilConst(y) {
@@ -691,7 +691,7 @@ func ruleC12_5(c *Ctx) {
 			continue
 		}
 		n++
-		gs := guardsAt(in.Block())
+		gs := guardsOf(in)
 		okG := guardHas(gs, func(g Guard) bool {
 			x, op, y, ok := cmpGuard(g)
 			if !ok || op != token.EQL {
@@ -749,13 +749,13 @@ func ruleC13_1(c *Ctx) {
 	askK, _ := p.ConstInt(pkgCodec, "RspAsk")
 	// counting and merging are off the redirect types
 	for _, w := range p.fieldWrites(fdn) {
-		if outermost(w.Fn) != rdS {
+		if homeFn(w.Fn) != rdS {
 			continue
 		}
 		if _, isInc := w.Val.(*ssa.BinOp); !isInc {
 			continue
 		}
-		gs := guardsAt(w.Instr.Block())
+		gs := guardsOf(w.Instr)
 		for k, name := range map[int64]string{movedK: "RspMoved", askK: "RspAsk"} {
 			kk := k
 			okG := guardHas(gs, func(g Guard) bool {
@@ -795,7 +795,7 @@ func ruleC13_1(c *Ctx) {
 	}
 	c.check(okArgs, "eventloop.sread: OnMoved(addr, slot of this reply, this connection, this fragment)", c.at(onMoved), "arguments come from r.parseMovedOrAsk() of the redirected fragment", "OnMoved is not called with the address/slot parsed from the redirected fragment itself")
 	moved := p.Global(pkgCodec, "MovedOrAsk")
-	gs := guardsAt(onMoved.Block())
+	gs := guardsOf(onMoved)
 	okG := guardHas(gs, func(g Guard) bool {
 		_, op, y, ok := cmpGuard(g)
 		ld, isLd := y.(*ssa.UnOp)
@@ -867,7 +867,7 @@ func ruleC13_2(c *Ctx) {
 	// literal
 	lit := ""
 	for _, w := range p.fieldWrites(reqF) {
-		if outermost(w.Fn) == home && strip(w.Base) == af {
+		if (w.Fn == home || homeFn(w.Fn) == on) && strip(w.Base) == af {
 			if call, ok := w.Val.(*ssa.Call); ok && len(call.Call.Args) == 2 {
 				lit, _ = constString(call.Call.Args[1])
 			}
@@ -876,7 +876,7 @@ func ruleC13_2(c *Ctx) {
 	args, wf := parseRESPCommand(lit)
 	c.check(wf && len(args) == 1 && strings.EqualFold(args[0], "ASKING"), "OnMoved: ASKING literal", c.at(asking), fmt.Sprintf("%q", lit), fmt.Sprintf("the command queued before the re-sent request is %q, not a well-formed ASKING", lit))
 	// guarded by f.Type == RspAsk, same connection, before the re-send
-	gs := guardsAt(asking.Block())
+	gs := guardsOf(asking)
 	okG := guardHas(gs, func(g Guard) bool {
 		x, op, y, ok := cmpGuard(g)
 		k, isK := constInt(y)
@@ -890,7 +890,7 @@ func ruleC13_2(c *Ctx) {
 	// its reply belongs to nobody
 	isDiscard := false
 	for _, w := range p.fieldWrites(discardF) {
-		if outermost(w.Fn) == home && strip(w.Base) == af {
+		if (w.Fn == home || homeFn(w.Fn) == on) && strip(w.Base) == af {
 			if k, ok := w.Val.(*ssa.Const); ok && k.Value.String() == "true" {
 				isDiscard = true
 			}
@@ -941,7 +941,7 @@ func ruleC13_3(c *Ctx) {
 			continue
 		}
 		// a guard comparing an integer field of the fragment (or its request) that this function increments
-		gs := guardsAt(call.Block())
+		gs := guardsOf(call)
 		bounded := guardHas(gs, func(g Guard) bool {
 			x, op, y, ok := cmpGuard(g)
 			if !ok || (op != token.LSS && op != token.LEQ && op != token.GTR && op != token.GEQ) {
@@ -961,7 +961,7 @@ func ruleC13_3(c *Ctx) {
 				}
 				// incremented in OnMoved
 				for _, w := range p.fieldWrites(fv) {
-					if outermost(w.Fn) == on {
+					if homeFn(w.Fn) == on {
 						if bo, ok := w.Val.(*ssa.BinOp); ok && bo.Op == token.ADD {
 							return true
 						}
@@ -985,7 +985,11 @@ func ruleC13_4(c *Ctx) {
 	typeF := p.Field(pkgCore, "Frag", "Type")
 	// prefixes from readReply: HasPrefix(line, "-X") whose true edge returns RspMoved / RspAsk
 	prefix := map[int64]string{}
-	for _, b := range rr.Blocks {
+	var rrBlocks []*ssa.BasicBlock
+	for _, g := range p.family(rr) {
+		rrBlocks = append(rrBlocks, g.Blocks...)
+	}
+	for _, b := range rrBlocks {
 		ifi, ok := b.Instrs[len(b.Instrs)-1].(*ssa.If)
 		if !ok {
 			continue
